@@ -34,6 +34,9 @@ type Case struct {
 	Conc     *ConcCase       `json:"conc,omitempty"`
 	Clone    *CloneCase      `json:"clone,omitempty"`
 	Dict     *DictCase       `json:"dict,omitempty"`
+	// Pollute: unrelated recipes built and rendered in the same process between the
+	// executions of Recipe (C07: output must not depend on what else the process has done)
+	Pollute []*Recipe `json:"pollute,omitempty"`
 }
 
 // Violation is a property failing on a case.
